@@ -386,9 +386,14 @@ def record_bb(sc):
     box = {}
 
     def construct(e):
-        box["bb"] = NDimBoundingBox(R.copy(), c.copy(), lim.copy())
+        limbuf = lim.copy()
+        box["bb"] = NDimBoundingBox(R.copy(), c.copy(), limbuf)
         e["lims"] = [[fxm(a), fxm(b)] for a, b in np.asarray(box["bb"].limits)]
         e["vol"] = sci(box["bb"].volume)
+        # the caller goes on using ITS limits array: another box is built from the same array, then the array is refilled;
+        # the first box keeps the limits it was constructed with
+        NDimBoundingBox(R.copy(), c.copy(), limbuf)
+        limbuf += 100.0
     if not guarded(ev(ev="new"), construct):
         return finish_bb(sc, events)
     bb = box["bb"]
@@ -568,7 +573,10 @@ def record_rp(sc):
     funcs = [make_objective(a, eps) for a in sc["a"]]
     prior = StubPrior(D)
     post = RomcPosterior(regions, funcs, funcs, [None] * N, [None] * N, list(range(N)), bool(sc["surr"]), prior,
-                         np.full(D, -PRIOR_SUPPORT), np.full(D, PRIOR_SUPPORT), float(eps), float(eps), float(eps))
+                         np.full(D, -PRIOR_SUPPORT), np.full(D, PRIOR_SUPPORT),
+                         # eps_filter and eps_region differ from the cut-off (the density and the weights are defined by the
+                         # cut-off alone); integer-valued distances: 2 above / 1 below the cut-off are different outcomes
+                         float(eps + 2), float(max(0, eps - 1)) if sc.get("eps_mode", 0) else float(eps + 2), float(eps))
     pts = [np.array(x, dtype=np.int64) for x in sc["pts"]]
 
     def at(xi):
@@ -647,7 +655,7 @@ def rp_scenarios(ctx):
                     pts.add(tuple(int(v) for v in x))
         pts = sorted(pts)
         rnd.shuffle(pts)
-        out.append(dict(D=D, N=N, eps=rnd.choice([0, 1, 2, 5]), surr=rnd.random() < 0.6, regs=regs, a=[rnd.randint(0, 2) for _k in range(N)],
+        out.append(dict(D=D, N=N, eps=rnd.choice([0, 1, 2, 5]), eps_mode=rnd.randint(0, 1), surr=rnd.random() < 0.6, regs=regs, a=[rnd.randint(0, 2) for _k in range(N)],
                         pts=[list(p) for p in pts[: (30 if ctx.quick else 60)]],
                         samples=[[rnd.randint(1, 5), rnd.randint(0, 10 ** 6)] for _s in range(2)]))
     return out
